@@ -15,7 +15,10 @@ def gen_units(rng, n):
         a, b = a // g, b // g
         c = rng.choice([1, 2, 4, 5, 10, 100, 3, 7, 1000])
         d = rng.choice([0, 1, -1, 273, -459, 27315, rng.randrange(-100000, 100000)])
-        out.append(P.gen_unit(100 + i, a, b, c, d))
+        # the unit the origin is written in: kelvins / c, or an anonymous scaling of a prefixed or derived unit (size != 1 K)
+        obase = rng.choice(["kelvins", "kelvins", "milli", "kilo", "centi", "rankines"])
+        cn = rng.choice([1, 1, 3, 50]) if obase != "kelvins" else 1
+        out.append(P.gen_unit(100 + i, a, b, c, d, obase, cn))
     return out
 
 
@@ -27,7 +30,7 @@ class C10(F.Check):
         "unit lists (pairs and triples) are enumerated: library temperature units plus VERIF_SEED-random generated units with rational "
         "scale (num, den <= 1000) and rational origin (positive, zero, negative)",
         "m_i, o_i are read off each kernel (values at x = 0 and x = 1) and then (a) proved to describe the kernel for ALL x, (b) checked against the "
-        "independent model: positive integer, non-negative integer, one common unit G' = scale_i / m_i for the whole list, G' divides the model's gcd unit, "
+        "independent model: positive integer, non-negative integer, one common unit G' = scale_i / m_i for the whole list, G' divides the gcd of the scales and origin differences, "
         "offsets consistent with the exact origins, lowest origin has offset 0. Maximality of the common point unit is not part of the property "
         "(the library's unit can be finer when a zero-valued origin is written in a finer unit) and is not demanded",
         "only UB traps count; the unsigned path legitimately relies on wrap-around (DESIGN.md section 1)",
@@ -39,7 +42,11 @@ class C10(F.Check):
 
     def kernels(self):
         nrand = 4 if self.tier == "quick" else 16
-        gens = [P.gen_unit(*g) for g in [(1, 3, 2, 1, 50), (2, 7, 5, 10, -1234), (3, 1, 1, 1, 0)]] + gen_units(self.rng, nrand)
+        gens = [P.gen_unit(*g) for g in [(1, 3, 2, 1, 50), (2, 7, 5, 10, -1234), (3, 1, 1, 1, 0),
+                                        (4, 1, 1, 1, 5463, "milli", 50),      # Celsius-like, origin written as (milli(kelvins) * 50)(5463)
+                                        (5, 2, 1, 4, 3, "rankines", 1),       # origin (rankines / 4)(3) = 5/12 K
+                                        (6, 2, 1, 1, 300, "kilo", 1)]] \
+            + gen_units(self.rng, nrand)
         pool = P.LIB_EXT + gens
         self.prelude = "\n".join(u.decl for u in pool if u.decl)
         lists = []
@@ -49,6 +56,8 @@ class C10(F.Check):
         self.rng.shuffle(triples)
         np_, nt = (22, 10) if self.tier == "quick" else (len(pairs), 120)
         fixed = [(0, 1), (0, 2), (1, 2), (1, 3), (2, 4)]
+        ng0 = len(P.LIB_EXT)
+        fixed += [(0, ng0 + 3), (0, ng0 + 4), (0, ng0 + 5), (1, ng0 + 4), (ng0 + 3, ng0 + 5)]     # origins spelled in scaled non-unit bases
         for p in fixed + [p for p in pairs if p not in fixed][:np_]:
             lists.append([pool[i] for i in p])
         # every triple of library point units (incl. prefixed Celsius: same origin, different scale), then seeded random ones
@@ -170,8 +179,13 @@ class C10(F.Check):
             same = all(g == gs[0] for g in gs)
             facts.append(("one_common_unit", same))
             if same and gs:
-                ratio = info["G"] / gs[0]
-                facts.append(("divides_model_gcd_unit", ratio.denominator == 1 and ratio >= 1))
+                # the largest unit that keeps every multiplier and offset integral, whatever unit the origins are written in: the gcd of the
+                # scales and the non-zero origin differences. The library's unit must divide it; it may be finer (which of two coinciding
+                # lowest origins it starts from, and the unit that origin is written in, is its own business - not part of the property)
+                diffs = [abs(a.origin - b.origin) for a in us for b in us if a.origin != b.origin]
+                gtrue = P.gcdf(*([u.scale for u in us] + diffs))
+                ratio = gtrue / gs[0]
+                facts.append(("divides_true_gcd_unit", ratio.denominator == 1 and ratio >= 1))
                 facts.append(("offsets_match_origins", all((mo[i][1] - mo[0][1]) * gs[0] == us[i].origin - us[0].origin
                                                            for i in range(len(us)))))
                 facts.append(("lowest_origin_has_zero_offset", min(o for m, o in mo) == 0))
